@@ -2,6 +2,7 @@ package main
 
 import (
 	"fmt"
+	"github.com/rulego/streamsql/functions"
 	"math"
 	"math/rand"
 	"sort"
@@ -168,9 +169,15 @@ func c04TuplePool(rng *rand.Rand, arity, size int) [][]string {
 func (c04) Gen(rng *rand.Rand, tier string, idx int) Case {
 	var c Case
 	arity := []int{0, 1, 1, 2, 2, 2, 3}[rng.Intn(7)]
-	mode := []string{"enc", "enc", "agg", "ses", "cnt", "glb", "agg"}[idx%7]
+	mode := []string{"enc", "fcnt", "agg", "ses", "cnt", "glb", "agg"}[idx%7]
+	if mode == "fcnt" {
+		arity = 2 + rng.Intn(2)
+	}
 	c.Cfg = append(c.Cfg, []string{"mode", mode}, []string{"arity", strconv.Itoa(arity)})
 	pool := c04TuplePool(rng, arity, 3+rng.Intn(3))
+	if mode == "fcnt" {
+		return c04GenFnKeys(rng, c, arity, pool)
+	}
 	c.Stat = append(c.Stat, "mode-"+mode, fmt.Sprintf("arity-%d", arity))
 	switch mode {
 	case "enc":
@@ -194,6 +201,135 @@ func (c04) Gen(rng *rand.Rand, tier string, idx int) Case {
 		c.Ops = append(c.Ops, []string{"results"})
 	}
 	return c
+}
+
+// ---- scalar-function keys: GROUP BY f0(g0), f1(g1), …, CountingWindow(N) --------------------------------------
+// The row ops carry the tuple of FUNCTION VALUES (what the property groups by), computed here with one call of the
+// expression bridge per key and row — exactly what the engine evaluates per key; the raw rows travel in cfg lines.
+
+func c04FnExpr(fn string, i int) string {
+	if fn == "-" {
+		return fmt.Sprintf("g%d", i)
+	}
+	return fmt.Sprintf("%s(g%d)", fn, i)
+}
+
+func c04GenFnKeys(rng *rand.Rand, c Case, arity int, pool [][]string) Case {
+	// column kinds from the pool's tokens
+	fns := make([]string, arity)
+	any := false
+	for i := 0; i < arity; i++ {
+		kind := ""
+		for _, t := range pool {
+			if len(t[i]) > 1 {
+				kind = t[i][:1]
+			}
+		}
+		switch kind {
+		case "s":
+			fns[i] = []string{"upper", "lower", "upper", "lower", "upper", "-"}[rng.Intn(6)]
+		case "i", "x":
+			fns[i] = []string{"abs", "abs", "abs", "abs", "-"}[rng.Intn(5)]
+		default:
+			fns[i] = []string{"upper", "abs"}[rng.Intn(2)] // all NULL / bool: the function fails or yields its NULL result
+		}
+		if fns[i] != "-" {
+			any = true
+		}
+	}
+	if !any {
+		fns[0] = "upper"
+	}
+	n := []int{1, 2, 2, 3}[rng.Intn(4)]
+	c.Cfg = append(c.Cfg, []string{"n", strconv.Itoa(n)}, append([]string{"fns"}, fns...))
+	nrows := 4 + rng.Intn(14)
+	for i := 0; i < nrows; i++ {
+		t := append([]string(nil), pool[rng.Intn(len(pool))]...)
+		if rng.Intn(3) == 0 {
+			// a key whose function has nothing to work on (NULL / missing / wrong type) in front of other keys
+			j := rng.Intn(arity - 1)
+			t[j] = []string{"n", "m", "b:t"}[rng.Intn(3)]
+		}
+		c.Cfg = append(c.Cfg, append([]string{"raw", strconv.Itoa(i + 1)}, t...))
+		row := c04Row(i+1, t)
+		fv := make([]string, arity)
+		for j := range fv {
+			if fns[j] == "-" {
+				fv[j] = t[j]
+				continue
+			}
+			v, err := functions.GetExprBridge().EvaluateExpression(c04FnExpr(fns[j], j), row)
+			if err != nil {
+				fv[j] = "m" // the key is not injected: the row has no such group column
+				c.Stat = append(c.Stat, "fn-key-fails")
+			} else {
+				fv[j] = c04ValTok(v, true)
+			}
+		}
+		c.Ops = append(c.Ops, append([]string{"row", strconv.Itoa(i + 1)}, fv...))
+	}
+	c.Ops = append(c.Ops, []string{"results"})
+	c.Stat = append(c.Stat, "mode-fcnt", fmt.Sprintf("arity-%d", arity))
+	return c
+}
+
+func c04SQLFn(arity, n int, fns []string, raws [][]string) [][]string {
+	names := make([]string, arity)
+	var sel, gb []string
+	for i := 0; i < arity; i++ {
+		names[i] = fmt.Sprintf("k%d", i)
+		e := c04FnExpr(fns[i], i)
+		sel = append(sel, e+" AS "+names[i])
+		gb = append(gb, e)
+	}
+	sel = append(sel, "count(*) AS c", "collect(id) AS ids")
+	sql := "SELECT " + strings.Join(sel, ", ") + " FROM stream GROUP BY " + strings.Join(gb, ", ") + fmt.Sprintf(", CountingWindow(%d)", n)
+	s := streamsql.New(streamsql.WithDiscardLog())
+	defer s.Stop()
+	if err := s.Execute(sql); err != nil {
+		return [][]string{{"exec-error", hx(err.Error())}}
+	}
+	ch := make(chan []map[string]interface{}, 4096)
+	s.AddSyncSink(func(r []map[string]interface{}) {
+		cp := make([]map[string]interface{}, len(r))
+		copy(cp, r)
+		ch <- cp
+	})
+	for _, t := range raws {
+		id, _ := strconv.Atoi(t[0])
+		s.Emit(c04Row(id, t[1:]))
+	}
+	for i := 1; i <= n; i++ {
+		row := map[string]interface{}{"id": -i}
+		for j := 0; j < arity; j++ {
+			row[fmt.Sprintf("g%d", j)] = "~sentinel~"
+			if fns[j] == "abs" {
+				row[fmt.Sprintf("g%d", j)] = 987654321
+			}
+		}
+		s.Emit(row)
+	}
+	var out [][]string
+	deadline := time.After(c04BarrierDeadline())
+	for {
+		select {
+		case b := <-ch:
+			done := false
+			for _, r := range b {
+				if c04HasNegativeID(r) {
+					done = true
+				} else {
+					out = append(out, c04ResultLine(r, names))
+				}
+			}
+			if done {
+				return c04SortLines(out)
+			}
+		case <-deadline:
+			c04BarrierFailed = true
+			return append(c04SortLines(out), []string{"sentinel-lost"})
+		}
+	}
 }
 
 // ---- execution ----------------------------------------------------------------------------------
@@ -465,6 +601,18 @@ func (c04) Exec(c Case) [][][]string {
 				out = append(out, c04SortLines(ls))
 			case "ses":
 				out = append(out, c04Session(arity, rows))
+			case "fcnt":
+				var fns []string
+				var raws [][]string
+				for _, l := range c.Cfg {
+					switch l[0] {
+					case "fns":
+						fns = l[1:]
+					case "raw":
+						raws = append(raws, l[1:])
+					}
+				}
+				out = append(out, c04SQLFn(arity, n, fns, raws))
 			default:
 				out = append(out, c04SQL(mode, arity, n, alias, rows))
 			}
